@@ -115,12 +115,12 @@ func (o *Operations) Update(
 			}
 
 			if writer.DriveIsRegular {
-				if _, err := io.Copy(compressor, signer); err != nil {
+				if _, err := io.Copy(compressor, ioext.OnlyReader{Reader: signer}); err != nil {
 					return []*tar.Header{}, err
 				}
 			} else {
 				buf := make([]byte, config.MagneticTapeBlockSize*o.pipes.RecordSize)
-				if _, err := io.CopyBuffer(compressor, signer, buf); err != nil {
+				if _, err := io.CopyBuffer(compressor, ioext.OnlyReader{Reader: signer}, buf); err != nil {
 					return []*tar.Header{}, err
 				}
 			}
@@ -222,12 +222,12 @@ func (o *Operations) Update(
 			}
 
 			if writer.DriveIsRegular {
-				if _, err := io.Copy(compressor, f); err != nil {
+				if _, err := io.Copy(compressor, ioext.OnlyReader{Reader: f}); err != nil {
 					return []*tar.Header{}, err
 				}
 			} else {
 				buf := make([]byte, config.MagneticTapeBlockSize*o.pipes.RecordSize)
-				if _, err := io.CopyBuffer(compressor, f, buf); err != nil {
+				if _, err := io.CopyBuffer(compressor, ioext.OnlyReader{Reader: f}, buf); err != nil {
 					return []*tar.Header{}, err
 				}
 			}
